@@ -214,6 +214,8 @@ class _Run:
             seen.add((ctx, i))
             obs = _observe_type(v)
             exp = self.types[i]
+            if obs == ("other", "NotImplementedType"):
+                continue  # operator not implemented for the operands: cohdl goes on to reject the design
             if obs[0] == "other":
                 res[i].findings.append((ctx, "kind", f"result is a {obs[1]}, documented {exp}"))
             elif obs[0] != exp[0]:
